@@ -1,17 +1,17 @@
 import Spydr.IR.SepOps0
 namespace Spydr.IR
 
-theorem sep_removeLibrary (s : S) (off n l) : Sep s off → (Op.removeLibrary n l).above off →
-    Sep (step s (.removeLibrary n l)).1 off ∧ LowEq (step s (.removeLibrary n l)).1 s off := by sep_op
-theorem sep_setDefinitions (s : S) (off l ds) : Sep s off → (Op.setDefinitions l ds).above off →
-    Sep (step s (.setDefinitions l ds)).1 off ∧ LowEq (step s (.setDefinitions l ds)).1 s off := by sep_op
-theorem sep_removeCable (s : S) (off d c) : Sep s off → (Op.removeCable d c).above off →
-    Sep (step s (.removeCable d c)).1 off ∧ LowEq (step s (.removeCable d c)).1 s off := by sep_op
-theorem sep_setChildren (s : S) (off d is) : Sep s off → (Op.setChildren d is).above off →
-    Sep (step s (.setChildren d is)).1 off ∧ LowEq (step s (.setChildren d is)).1 s off := by sep_op
-theorem sep_removeWire (s : S) (off c w) : Sep s off → (Op.removeWire c w).above off →
-    Sep (step s (.removeWire c w)).1 off ∧ LowEq (step s (.removeWire c w)).1 s off := by sep_op
-theorem sep_disconnectFrom (s : S) (off w rs) : Sep s off → (Op.disconnectFrom w rs).above off →
-    Sep (step s (.disconnectFrom w rs)).1 off ∧ LowEq (step s (.disconnectFrom w rs)).1 s off := by sep_op
+theorem sep_removeLibrary (s : S) (R : OId → Prop) (n l) : Sep s R → (Op.removeLibrary n l).inside R →
+    Sep (step s (.removeLibrary n l)).1 R ∧ OutEq (step s (.removeLibrary n l)).1 s R := by sep_op
+theorem sep_setDefinitions (s : S) (R : OId → Prop) (l ds) : Sep s R → (Op.setDefinitions l ds).inside R →
+    Sep (step s (.setDefinitions l ds)).1 R ∧ OutEq (step s (.setDefinitions l ds)).1 s R := by sep_op
+theorem sep_removeCable (s : S) (R : OId → Prop) (d c) : Sep s R → (Op.removeCable d c).inside R →
+    Sep (step s (.removeCable d c)).1 R ∧ OutEq (step s (.removeCable d c)).1 s R := by sep_op
+theorem sep_setChildren (s : S) (R : OId → Prop) (d is) : Sep s R → (Op.setChildren d is).inside R →
+    Sep (step s (.setChildren d is)).1 R ∧ OutEq (step s (.setChildren d is)).1 s R := by sep_op
+theorem sep_removeWire (s : S) (R : OId → Prop) (c w) : Sep s R → (Op.removeWire c w).inside R →
+    Sep (step s (.removeWire c w)).1 R ∧ OutEq (step s (.removeWire c w)).1 s R := by sep_op
+theorem sep_disconnectFrom (s : S) (R : OId → Prop) (w rs) : Sep s R → (Op.disconnectFrom w rs).inside R →
+    Sep (step s (.disconnectFrom w rs)).1 R ∧ OutEq (step s (.disconnectFrom w rs)).1 s R := by sep_op
 
 end Spydr.IR
